@@ -537,6 +537,79 @@ def class_attr(cls, name):
     return None
 
 
+_MUTATORS = {"append", "extend", "insert", "pop", "remove", "clear", "update", "setdefault", "popitem", "sort", "reverse",
+             "add", "discard", "__setitem__"}
+
+
+def _root_name(n):
+    while isinstance(n, (ast.Attribute, ast.Subscript)):
+        n = n.value
+    return n.id if isinstance(n, ast.Name) else None
+
+
+def _writes_of(mod_tree, fn):
+    """syntactic writes of one function that can outlive the call: stores into attributes / items of a parameter or
+    of a name the function does not bind, mutating calls on module-level objects, global / nonlocal, setattr,
+    and decorators other than classmethod / staticmethod / property (a cache would be one)"""
+    params = {a.arg for a in fn.args.posonlyargs + fn.args.args + fn.args.kwonlyargs}
+    if fn.args.vararg:
+        params.add(fn.args.vararg.arg)
+    if fn.args.kwarg:
+        params.add(fn.args.kwarg.arg)
+    modlevel = set()
+    for st in mod_tree.body:
+        if isinstance(st, ast.Assign):
+            modlevel.update(t.id for t in st.targets if isinstance(t, ast.Name))
+        elif isinstance(st, ast.AnnAssign) and isinstance(st.target, ast.Name):
+            modlevel.add(st.target.id)
+    local = {n.id for n in ast.walk(fn) if isinstance(n, ast.Name) and isinstance(n.ctx, ast.Store)}
+    out = []
+    is_setter = any(ast.unparse(d).endswith(".setter") for d in fn.decorator_list)
+    for d in fn.decorator_list:
+        txt = ast.unparse(d)
+        if txt not in ("classmethod", "staticmethod", "property") and not txt.endswith(".setter"):
+            out.append(f"decorator {txt}")
+    for n in ast.walk(fn):
+        if isinstance(n, (ast.Global, ast.Nonlocal)):
+            out.append("global " + ",".join(n.names))
+        elif isinstance(n, ast.Attribute) and isinstance(n.ctx, (ast.Store, ast.Del)):
+            r = _root_name(n)
+            if r in params and not (r == "self" and (fn.name == "__init__" or is_setter)):
+                out.append(f"attribute {ast.unparse(n)}")
+            elif r is not None and r not in local and r not in params:
+                out.append(f"attribute {ast.unparse(n)}")
+        elif isinstance(n, ast.Subscript) and isinstance(n.ctx, (ast.Store, ast.Del)):
+            r = _root_name(n)
+            if r in params or (r is not None and r not in local):
+                out.append(f"item {ast.unparse(n.value)}[..]")
+        elif isinstance(n, ast.Call) and isinstance(n.func, ast.Attribute) and n.func.attr in _MUTATORS:
+            r = _root_name(n.func.value)
+            if r in modlevel and r not in local and r not in params:
+                out.append(f"call {ast.unparse(n.func)}")
+        elif isinstance(n, ast.Call) and isinstance(n.func, ast.Name) and n.func.id in ("setattr", "delattr"):
+            out.append(n.func.id)
+    return sorted(set(out))
+
+
+def writers_table(repo):
+    """every function of the library that has such a write: (file, qualified name, writes)"""
+    rows = []
+    for fname in ("callables.py", "casting.py", "conditions.py", "data.py", "datapath.py", "rules.py", "schema.py", "utils.py"):
+        tree = ast.parse(open(os.path.join(repo, "valida", fname)).read())
+
+        def visit(body, prefix):
+            for st in body:
+                if isinstance(st, ast.ClassDef):
+                    visit(st.body, prefix + st.name + ".")
+                elif isinstance(st, (ast.FunctionDef, ast.AsyncFunctionDef)):
+                    w = _writes_of(tree, st)
+                    if w:
+                        rows.append((fname, prefix + st.name, w))
+                    visit(st.body, prefix + st.name + ".")
+        visit(tree.body, "")
+    return rows
+
+
 def gen_tables(repo):
     csrc = open(os.path.join(repo, "valida", "conditions.py")).read()
     ctree = ast.parse(csrc)
@@ -1050,6 +1123,35 @@ def gen_tables(repo):
     L.append(f"def validateDeepCopies : Bool := {'true' if deep else 'false'}")
     L.append("/-- `Rule.test` writes cast values into the private copy only (`parent = data_copy`) -/")
     L.append(f"def castWritesToCopy : Bool := {'true' if ('parent = data_copy' in rt_src and 'parent[datum_path[-1]] = datum' in rt_src) else 'false'}")
+    L.append("/-- `Rule.test` looks the nodes to cast up in the document it was given (`self.path.get_data(data, ...)`), not in the working copy earlier rules have written into -/")
+    sel_doc = ("sub_data = self.path.get_data(data, return_paths=True)" in rt_src
+               and "self.path.get_data(data_copy" not in rt_src)
+    L.append(f"def castSelectsInDocument : Bool := {'true' if sel_doc else 'false'}")
+    # `Schema.validate` and `ValidatedData.__init__` keep nothing on the schema: a validation is a function of the
+    # schema's rules and the document (no attribute of anything but the new result object is written)
+    val = find_method(sch, "validate")
+    vinit = find_method(vd, "__init__")
+
+    def attr_stores(fn):
+        return [n for n in ast.walk(fn) if isinstance(n, ast.Attribute) and isinstance(n.ctx, (ast.Store, ast.Del))]
+
+    def calls_named(fn, names):
+        return [n for n in ast.walk(fn) if isinstance(n, ast.Call) and isinstance(n.func, ast.Name) and n.func.id in names]
+    stateless = (
+        val is not None and vinit is not None
+        and not attr_stores(val) and not calls_named(val, ("setattr", "delattr"))
+        and not any(isinstance(n, (ast.Global, ast.Nonlocal)) for n in ast.walk(val))
+        and ast.unparse(val.body[-1]) == "return ValidatedData(self, data)"
+        and all(isinstance(n.value, ast.Name) and n.value.id == "self" for n in attr_stores(vinit))
+        and not calls_named(vinit, ("setattr", "delattr")))
+    L.append("/-- `Schema.validate` writes no attribute (it returns a new `ValidatedData(self, data)`), and `ValidatedData.__init__` writes attributes of the new object only -/")
+    L.append(f"def validateStateless : Bool := {'true' if stateless else 'false'}")
+    L.append("/-- every function of the library with a write that can outlive the call (stores into attributes / items of a")
+    L.append("    parameter or a non-local object, mutating calls on module-level objects, `global`, `setattr`, decorators other")
+    L.append("    than classmethod / staticmethod / property): (file, qualified name, writes). The functional model has no place")
+    L.append("    for any other state -/")
+    L.append("def writers : List (String × String × List String) := " + lean_list(
+        "(" + lstr(f) + ", " + lstr(q) + ", " + lean_list(lstr(x) for x in w) + ")" for f, q, w in writers_table(repo)))
     add = find_method(sch, "add_schema")
     add_src = ast.unparse(add)
     writes_rule = any(
